@@ -98,7 +98,7 @@ fn model_output(items: &[(usize, String)], g: &Greg, s: usize, off_min: i32) -> 
     out
 }
 
-fn fmt_oracle(c: &Fmt) -> Verdict {
+pub fn fmt_oracle(c: &Fmt) -> Verdict {
     let fs = format_string(&c.items);
     let format = match lib!(Format::from_str(&fs)) {
         Ok(f) => f,
@@ -207,7 +207,7 @@ fn const_of(k: usize) -> (&'static str, Format, Option<&'static str>) {
     }
 }
 
-fn const_oracle(c: &Const) -> Verdict {
+pub fn const_oracle(c: &Const) -> Verdict {
     let (name, konst, doc) = const_of(c.k);
     if let Some(d) = doc {
         match lib!(Format::from_str(d)) {
@@ -300,7 +300,7 @@ fn back_strategy() -> BS<Back> {
         .boxed()
 }
 
-fn back_oracle(c: &Back) -> Verdict {
+pub fn back_oracle(c: &Back) -> Verdict {
     let fs = format_string(&c.items);
     let format = match lib!(Format::from_str(&fs)) {
         Ok(f) => f,
@@ -330,5 +330,6 @@ pub fn subs() -> Vec<Box<dyn DynSub>> {
         sub(Sub { name: "c19.to_time_scale", source: Source::Gen(tots_strategy, 60_000, 2_000_000), oracle: tots_oracle, known: no_known, hang_is_violation: false }),
         sub(Sub { name: "c19.constants", source: Source::Gen(const_strategy, 150_000, 5_000_000), oracle: const_oracle, known: no_known, hang_is_violation: false }),
         sub(Sub { name: "c19.parse_back", source: Source::Gen(back_strategy, 150_000, 5_000_000), oracle: back_oracle, known: no_known, hang_is_violation: false }),
+        crate::props::fuzzsub::c19_fuzz(),
     ]
 }
